@@ -6,12 +6,12 @@ use crate::refmodel::Mode;
 use serde_json::Value;
 
 pub mod c01;
-// TMP pub mod c02;
+pub mod c02;
 pub mod c03;
 pub mod c04;
-// TMP pub mod c05;
-// TMP pub mod c06;
-// TMP pub mod c07;
+pub mod c05;
+pub mod c06;
+pub mod c07;
 // TMP pub mod c08;
 // TMP pub mod c09;
 // TMP pub mod c10;
@@ -28,12 +28,12 @@ pub fn run(id: &str, ctx: &Ctx) -> Option<Report> {
     let mut rep = Report::new(id);
     match id {
         "C01" => c01::run(ctx, &mut rep),
-// TMP         "C02" => c02::run(ctx, &mut rep),
+        "C02" => c02::run(ctx, &mut rep),
         "C03" => c03::run(ctx, &mut rep),
         "C04" => c04::run(ctx, &mut rep),
-// TMP         "C05" => c05::run(ctx, &mut rep),
-// TMP         "C06" => c06::run(ctx, &mut rep),
-// TMP         "C07" => c07::run(ctx, &mut rep),
+        "C05" => c05::run(ctx, &mut rep),
+        "C06" => c06::run(ctx, &mut rep),
+        "C07" => c07::run(ctx, &mut rep),
 // TMP         "C08" => c08::run(ctx, &mut rep),
 // TMP         "C09" => c09::run(ctx, &mut rep),
 // TMP         "C10" => c10::run(ctx, &mut rep),
@@ -52,12 +52,12 @@ pub fn run(id: &str, ctx: &Ctx) -> Option<Report> {
 pub fn replay(id: &str, ctx: &Ctx, sub: &str, case: &Value) -> Option<CheckResult> {
     match id {
         "C01" => c01::replay(ctx, sub, case),
-// TMP         "C02" => c02::replay(ctx, sub, case),
+        "C02" => c02::replay(ctx, sub, case),
         "C03" => c03::replay(ctx, sub, case),
         "C04" => c04::replay(ctx, sub, case),
-// TMP         "C05" => c05::replay(ctx, sub, case),
-// TMP         "C06" => c06::replay(ctx, sub, case),
-// TMP         "C07" => c07::replay(ctx, sub, case),
+        "C05" => c05::replay(ctx, sub, case),
+        "C06" => c06::replay(ctx, sub, case),
+        "C07" => c07::replay(ctx, sub, case),
 // TMP         "C08" => c08::replay(ctx, sub, case),
 // TMP         "C09" => c09::replay(ctx, sub, case),
 // TMP         "C10" => c10::replay(ctx, sub, case),
